@@ -1711,6 +1711,12 @@ post_t * instance_t::parse_post(char *          line,
       DEBUG("textual.parse", "line " << context.linenum << ": "
             << "POST assign: parsed balance amount = " << *post->assigned_amount);
 
+      // The commodity of an asserted or assigned balance is subject to
+      // --strict/--pedantic just like the commodity of an amount
+      if (post->assigned_amount->has_commodity())
+        context.journal->register_commodity
+          (post->assigned_amount->commodity(), post.get());
+
       const amount_t& amt(*post->assigned_amount);
       value_t account_total
         (post->account->amount(!post->has_flags(POST_VIRTUAL)).strip_annotations(keep_details_t()));
